@@ -173,11 +173,114 @@ func (la *lexAnalysis) run(fn *ssa.Function, entry lexStateSet, argDesc []string
 	la.depth++
 	defer func() { la.depth-- }()
 	cfg := la.cfg
+	// Path sensitivity for boolean flags: a boolean phi with constant edges that is branched on ("closed := false ...
+	// closed = true; break ... if closed") is tracked as a tag on the states, so that the branch on the flag only lets
+	// through the states that arrived with the matching value. States are stored as tag + "\x01" + state.
+	flagPhis := map[*ssa.Phi]bool{}
+	for _, b := range fn.Blocks {
+		ifi, ok := b.Instrs[len(b.Instrs)-1].(*ssa.If)
+		if !ok {
+			continue
+		}
+		cond := ifi.Cond
+		for {
+			if u, ok := cond.(*ssa.UnOp); ok && u.Op == token.NOT {
+				cond = u.X
+				continue
+			}
+			break
+		}
+		if phi, ok := cond.(*ssa.Phi); ok && isBoolType(phi.Type()) {
+			for _, e := range phi.Edges {
+				if cst, ok := e.(*ssa.Const); ok && cst.Value != nil {
+					flagPhis[phi] = true
+				}
+			}
+		}
+	}
+	parseTag := func(tag string) map[string]string {
+		m := map[string]string{}
+		for _, kv := range strings.Split(tag, ",") {
+			if i := strings.Index(kv, "="); i > 0 {
+				m[kv[:i]] = kv[i+1:]
+			}
+		}
+		return m
+	}
+	fmtTag := func(m map[string]string) string {
+		var ks []string
+		for k := range m {
+			ks = append(ks, k)
+		}
+		sort.Strings(ks)
+		var parts []string
+		for _, k := range ks {
+			parts = append(parts, k+"="+m[k])
+		}
+		return strings.Join(parts, ",")
+	}
+	// edgeTag: the tag after following the edge from -> to (the flag phis of `to` take the value of their edge)
+	edgeTag := func(tag string, from, to *ssa.BasicBlock) string {
+		if len(flagPhis) == 0 {
+			return tag
+		}
+		m := parseTag(tag)
+		for _, ins := range to.Instrs {
+			phi, ok := ins.(*ssa.Phi)
+			if !ok {
+				break
+			}
+			if !flagPhis[phi] {
+				continue
+			}
+			for k, pr := range to.Preds {
+				if pr != from {
+					continue
+				}
+				e := phi.Edges[k]
+				if cst, ok := e.(*ssa.Const); ok && cst.Value != nil {
+					m[phi.Name()] = cst.Value.String()
+				} else if src, ok := e.(*ssa.Phi); ok && m[src.Name()] != "" {
+					m[phi.Name()] = m[src.Name()]
+				} else {
+					delete(m, phi.Name())
+				}
+			}
+		}
+		return fmtTag(m)
+	}
 	in := map[*ssa.BasicBlock]lexStateSet{}
 	in[fn.Blocks[0]] = lexStateSet{}
-	unionStates(in[fn.Blocks[0]], entry)
+	for s := range entry {
+		in[fn.Blocks[0]]["\x01"+s] = true
+	}
 	work := []*ssa.BasicBlock{fn.Blocks[0]}
+	var curBlock *ssa.BasicBlock
+	curTag := ""
 	add := func(dst *ssa.BasicBlock, st lexStateSet) {
+		// a branch on a tracked flag lets only the matching states through
+		if ifi, ok := curBlock.Instrs[len(curBlock.Instrs)-1].(*ssa.If); ok && len(curBlock.Succs) == 2 && curBlock.Succs[0] != curBlock.Succs[1] {
+			cond, neg := ifi.Cond, false
+			for {
+				if u, ok := cond.(*ssa.UnOp); ok && u.Op == token.NOT {
+					cond, neg = u.X, !neg
+					continue
+				}
+				break
+			}
+			if phi, ok := cond.(*ssa.Phi); ok && flagPhis[phi] {
+				if v := parseTag(curTag)[phi.Name()]; v != "" {
+					val := v == "true"
+					if neg {
+						val = !val
+					}
+					if (dst == curBlock.Succs[0]) != val {
+						return
+					}
+				}
+			}
+		}
+		tag := edgeTag(curTag, curBlock, dst)
 		cur := in[dst]
 		if cur == nil {
 			cur = lexStateSet{}
@@ -185,8 +288,9 @@ func (la *lexAnalysis) run(fn *ssa.Function, entry lexStateSet, argDesc []string
 		}
 		changed := false
 		for s := range st {
-			if !cur[s] {
-				cur[s] = true
+			k := tag + "\x01" + s
+			if !cur[k] {
+				cur[k] = true
 				changed = true
 			}
 		}
@@ -194,13 +298,43 @@ func (la *lexAnalysis) run(fn *ssa.Function, entry lexStateSet, argDesc []string
 			work = append(work, dst)
 		}
 	}
-	origins := map[ssa.Value]string{}        // match-like call value -> origin description
+	origins := map[ssa.Value]string{}         // match-like call value -> origin description
 	helperSums := map[ssa.Value]*lexSummary{} // helper call value -> summary
-	for len(work) > 0 {
-		b := work[len(work)-1]
-		work = work[:len(work)-1]
+	type job struct {
+		b   *ssa.BasicBlock
+		tag string
+		st  lexStateSet
+	}
+	var jobs []job
+	for len(work) > 0 || len(jobs) > 0 {
+		if len(jobs) == 0 {
+			wb := work[len(work)-1]
+			work = work[:len(work)-1]
+			groups := map[string]lexStateSet{}
+			for k := range in[wb] {
+				i := strings.Index(k, "\x01")
+				tag, base := k[:i], k[i+1:]
+				if groups[tag] == nil {
+					groups[tag] = lexStateSet{}
+				}
+				groups[tag][base] = true
+			}
+			var tags []string
+			for t := range groups {
+				tags = append(tags, t)
+			}
+			sort.Strings(tags)
+			for _, t := range tags {
+				jobs = append(jobs, job{wb, t, groups[t]})
+			}
+			continue
+		}
+		jb := jobs[len(jobs)-1]
+		jobs = jobs[:len(jobs)-1]
+		b := jb.b
+		curBlock, curTag = b, jb.tag
 		st := lexStateSet{}
-		unionStates(st, in[b])
+		unionStates(st, jb.st)
 		for _, ins := range b.Instrs {
 			call, ok := ins.(ssa.CallInstruction)
 			if !ok {
@@ -371,8 +505,18 @@ func (la *lexAnalysis) run(fn *ssa.Function, entry lexStateSet, argDesc []string
 				continue
 			}
 			if hs, ok := helperSums[cond]; ok && st[fmt.Sprintf("H:%p", cond)] {
-				t := expand(st, func(h *lexSummary) lexStateSet { u := lexStateSet{}; unionStates(u, h.onTrue); unionStates(u, h.other); return u }, cond)
-				f := expand(st, func(h *lexSummary) lexStateSet { u := lexStateSet{}; unionStates(u, h.onFalse); unionStates(u, h.other); return u }, cond)
+				t := expand(st, func(h *lexSummary) lexStateSet {
+					u := lexStateSet{}
+					unionStates(u, h.onTrue)
+					unionStates(u, h.other)
+					return u
+				}, cond)
+				f := expand(st, func(h *lexSummary) lexStateSet {
+					u := lexStateSet{}
+					unionStates(u, h.onFalse)
+					unionStates(u, h.other)
+					return u
+				}, cond)
 				_ = hs
 				if neg {
 					t, f = f, t
